@@ -127,16 +127,26 @@ def correspond(ctx):
                             continue
                         Y = np.array([Y, Y + 1], dtype=np.asarray(Y).dtype)
                     kw = dict(kw0)
+                    variant = False
+                    if rng.random() < 0.4:
+                        # a non-default parameter value (code paths the default call never reaches)
+                        vs = M.variants(name, e, two_d, rng, 1, base=kw0)
+                        if vs:
+                            kw = vs[0]
+                            variant = True
                     mi = None
                     tol = None
                     if has_mi:
-                        mi = int(rng.choice([0, 1, 3, 7])) if rng.random() < 0.5 else None
-                        if mi is not None:
-                            kw['max_iter'] = mi
+                        if 'max_iter' in kw and variant and kw.get('max_iter') != kw0.get('max_iter'):
+                            mi = kw['max_iter']
                         else:
-                            mi = e['params']['max_iter']
+                            mi = int(rng.choice([0, 1, 3, 7])) if rng.random() < 0.5 else None
+                            if mi is not None:
+                                kw['max_iter'] = mi
+                            else:
+                                mi = e['params']['max_iter']
                         if 'tol' in e['params']:
-                            tol = e['params']['tol']
+                            tol = kw.get('tol', e['params']['tol'])
                     if 'baseline_points' in kw and kind in ('offset', 'tiny', 'negative'):
                         pass
                     try:
@@ -149,7 +159,8 @@ def correspond(ctx):
                         ctx.count('raised:' + type(ex).__name__)
                         if isinstance(ex, (SystemExit, KeyboardInterrupt)):
                             raise
-                    canon = (dim, name, kind, str(n), mi)
+                    canon = (dim, name, kind, str(n), mi, repr(sorted((k, repr(v)) for k, v in kw.items() if kw0.get(k, None) is not v and k != 'max_iter')) if variant else '')
+                    ctx.count('kwargs:' + ('variant' if variant else 'default'))
                     ctx.case(canon, nontrivial=outcome == 'returned',
                              sample={'method': f'{dim}:{name}', 'data': kind, 'size': n if not isinstance(n, tuple) else list(n), 'max_iter': mi, 'outcome': outcome}
                              if len(ctx.samples) < 6 and kind != 'noisy' else None)
@@ -167,6 +178,36 @@ def correspond(ctx):
                     # ordering: the unsorted run must be the sorted run permuted (reference = the noisy run on sorted x with identical settings)
                     if kind == 'noisy':
                         ref['noisy'] = (x, z, Y, kw, b)
+            # every single parameter moved to a non-default value (optional code paths), on plain noisy data
+            svs = M.single_variants(name, e, two_d, base=kw0)
+            if not ctx.thorough and len(svs) > 8:
+                svs = [svs[i] for i in sorted(rng.choice(len(svs), 8, replace=False))]
+            for kwv in svs:
+                ds = int(rng.integers(0, 2 ** 31))
+                nv = int(rng.choice([25, 60]))
+                x, z, Y = variant_data(two_d, ds, nv)
+                if stack:
+                    Y = np.array([Y, Y + 1])
+                try:
+                    with np.errstate(all='ignore'):
+                        fit = Baseline2D(x, z) if two_d else Baseline(x)
+                        b, p = getattr(fit, name)(Y, **kwv)
+                except Exception as ex:
+                    ctx.count('raised:' + type(ex).__name__)
+                    if isinstance(ex, (SystemExit, KeyboardInterrupt)):
+                        raise
+                    continue
+                diffkeys = {k: v for k, v in kwv.items() if kw0.get(k, '<absent>') != v}
+                ctx.case((dim, name, 'single-variant', repr(sorted((k, repr(v)) for k, v in diffkeys.items()))), nontrivial=True)
+                ctx.count('kwargs:single-variant')
+                meta = {'method': name, 'two_d': two_d, 'kind': 'noisy', 'size': list(np.asarray(Y).shape), 'max_iter': kwv.get('max_iter'),
+                        'kwargs': {k: v for k, v in kwv.items()}, 'data_seed': ds, 'n': nv}
+                mi_v = kwv.get('max_iter', e['params'].get('max_iter')) if has_mi else None
+                for pr in well_formed(name, two_d, Y, b, p, None, mi_v, kwv.get('tol', e['params'].get('tol')), golden.get(('2d.' if two_d else '') + name)):
+                    dis.append(Disagreement('c01.shape', f'{dim}:{name}:wellformed', f'{dim} {name} ({diffkeys}, noisy data): {pr}', meta, True))
+                if getattr(b, 'dtype', None) is not None and b.dtype.kind == 'f' and b.size and not np.all(np.isfinite(b)):
+                    dis.append(Disagreement('c01.finite', f'{dim}:{name}:nonfinite', f'{dim} {name} ({diffkeys}, noisy data): the returned baseline contains '
+                                            f'{int(np.sum(~np.isfinite(b)))} non-finite values for finite noisy data', meta, True))
             # order check on a dedicated pair of runs with identical settings
             try:
                 if two_d:
@@ -221,9 +262,32 @@ def search(ctx, hints, lean_failed):
     return [d for d in correspond(sub) if d.property_level]
 
 
+def variant_data(two_d, data_seed, n):
+    g = np.random.default_rng(data_seed)
+    if two_d:
+        return M.make_data2d(g, 12, 10)
+    x, Y = M.make_data(g, n)
+    return x, None, Y
+
+
 def replay(ctx, data):
     from pybaselines import Baseline, Baseline2D
     r = data['replay']
+    if 'data_seed' in r:
+        x, z, Y = variant_data(r['two_d'], r['data_seed'], r.get('n', 25))
+        if r['method'] == 'collab_pls':
+            Y = np.array([Y, Y + 1])
+        kw = {k: (tuple(v) if isinstance(v, list) and r['two_d'] else v) for k, v in r['kwargs'].items()}
+        try:
+            with np.errstate(all='ignore'):
+                fit = Baseline2D(x, z) if r['two_d'] else Baseline(x)
+                b, p = getattr(fit, r['method'])(Y, **kw)
+        except Exception:
+            return None
+        if b.dtype.kind == 'f' and not np.all(np.isfinite(b)):
+            return f'{r["method"]}: non-finite baseline for finite noisy data'
+        pr = well_formed(r['method'], r['two_d'], Y, b, p, None, r.get('max_iter'), None, None)
+        return pr[0] if pr else None
     if r.get('kind') in ('replay', 'order'):
         return None
     rng = np.random.default_rng(0)
